@@ -60,6 +60,9 @@ func (o *OvsMap) UnmarshalJSON(b []byte) (err error) {
 					return err
 				}
 				k = goSlice
+			case map[string]interface{}:
+				// a json object is not an atom (and not hashable)
+				return &json.UnmarshalTypeError{Value: reflect.ValueOf(oMap).String(), Type: reflect.TypeOf(*o)}
 			default:
 				k = f[0]
 			}
